@@ -266,6 +266,12 @@ var flowTargets = []flowTarget{
 	{"stores/sqlite/store.go", "SQLiteStore", "Append", "sqlAppendFlow", ""},
 	{"stores/sqlite/store.go", "SQLiteStore", "streamBatch", "sqlStreamBatchFlow", ""},
 	{"stores/durablestream/store.go", "Store", "Read", "dsReadFlow", ""},
+	{"otel/observability.go", "Observability", "OnPublishStart", "otelPublishStartFlow", ""},
+	{"otel/observability.go", "Observability", "OnPublishComplete", "otelPublishCompleteFlow", ""},
+	{"otel/observability.go", "Observability", "OnHandlerStart", "otelHandlerStartFlow", ""},
+	{"otel/observability.go", "Observability", "OnHandlerComplete", "otelHandlerCompleteFlow", ""},
+	{"otel/observability.go", "Observability", "OnPersistStart", "otelPersistStartFlow", ""},
+	{"otel/observability.go", "Observability", "OnPersistComplete", "otelPersistCompleteFlow", ""},
 }
 
 func recvName(d *ast.FuncDecl) string {
@@ -360,6 +366,11 @@ var flowVocab = [][2]string{
 	{"memLock", "call:m.mu.Lock"}, {"memUnlockDeferred", "defer:m.mu.Unlock"}, {"memRLock", "call:m.mu.RLock"}, {"memRUnlockDeferred", "defer:m.mu.RUnlock"},
 	{"setNextOffset", "set:m.nextOffset"}, {"sprintf", "call:fmt.Sprintf"}, {"setMemEvents", "set:m.events"}, {"rangeMemEvents", "range:m.events{"},
 	{"ifAfterFrom", "if:from == OffsetOldest || event.Offset > from{"}, {"ifLimitReached", "if:limit > 0 && len(result) >= limit{"}, {"setSubscriptions", "set:m.subscriptions[]"},
+	// OpenTelemetry adapter
+	{"tracerStart", "call:o.tracer.Start"}, {"spanFromContext", "call:trace.SpanFromContext"}, {"spanEnd", "call:span.End"},
+	{"publishCounterAdd", "call:o.publishCounter.Add"}, {"handlerCounterAdd", "call:o.handlerCounter.Add"}, {"persistCounterAdd", "call:o.persistCounter.Add"},
+	{"handlerErrorsAdd", "call:o.handlerErrors.Add"}, {"persistErrorsAdd", "call:o.persistErrors.Add"}, {"ifErr", "if:err != nil{"},
+	{"setStatus", "call:span.SetStatus"}, {"recordError", "call:span.RecordError"},
 	// sqlite
 	{"sqlExec", "call:s.appendStmt.ExecContext"}, {"lastInsertId", "call:result.LastInsertId"}, {"toUTC", "call:event.Timestamp.UTC"},
 	{"rowsNext", "call:rows.Next"}, {"rowsErr", "call:rows.Err"}, {"yieldC", "call:yield"}, {"rowsScan", "call:rows.Scan"},
